@@ -203,6 +203,11 @@ pub struct Trace {
     pub mode: String,
     pub config: Config,
     pub ops: Vec<Op>,
+    /// "asan" | "miri": the trace must be replayed under that sanitizer
+    #[serde(default, skip_serializing_if = "Option::is_none")]
+    pub sanitizer: Option<String>,
+    #[serde(default, skip_serializing_if = "Option::is_none")]
+    pub tier: Option<String>,
 }
 
 pub fn fmt_op(op: &Op) -> String {
